@@ -65,11 +65,25 @@ def patterns(rng, n_pat):
     out = []
     for _ in range(n_pat):
         occs = []
-        base = [(lat(rng, 0, 6), float(rng.randint(55, 70))) for _ in range(rng.randint(1, 3))]
+        base = sorted({(lat(rng, 0, 6), float(rng.randint(55, 70))) for _ in range(rng.randint(1, 4))})
         for o in range(rng.randint(1, 2)):
             sh = lat(rng, 0, 8)
             occs.append([(t + sh, p) for t, p in base] if rng.random() < 0.7 else [(lat(rng, 0, 8), float(rng.randint(55, 70)))])
         out.append(occs)
+    return out
+
+
+def pattern_variants(rng, pats):
+    """estimated patterns that copy reference patterns note for note except for some replaced notes (similarities 1/2, 2/3, 3/4, 1)"""
+    out = []
+    for occs in pats:
+        new_occs = []
+        for occ in occs:
+            keep = max(1, len(occ) - rng.choice([0, 1, 1, 2]))
+            new_occs.append([tuple(x) for x in occ[:keep]] + [(t + 0.0625, p + 13.0) for t, p in occ[keep:]])
+        out.append(new_occs)
+    if out and rng.random() < 0.5:
+        out = out[::-1]
     return out
 
 
@@ -147,7 +161,11 @@ def inputs(task, seed, n):
             ks = ['C major', 'a minor', 'G major', 'c minor', 'X', 'F# other', 'Db major']
             out.append((rng.choice(ks), rng.choice(ks)))
         elif task == 'pattern':
-            out.append((patterns(rng, [0, 1, 2][small]), patterns(rng, [1, 2, 0][small] if k < 3 else rng.randint(0, 3))))
+            if k % 2 == 1:
+                rp_ = patterns(rng, rng.randint(1, 3))
+                out.append((rp_, pattern_variants(rng, rp_)))
+            else:
+                out.append((patterns(rng, [0, 1, 2][small]), patterns(rng, [1, 2, 0][small] if k < 3 else rng.randint(0, 3))))
         elif task == 'hierarchy':
             ri, rl = hier(rng, rng.randint(1, 3), 8.0)
             ei, el = hier(rng, rng.randint(1, 3), [8.0, 6.0, 9.0][small])
@@ -234,8 +252,10 @@ def function_inputs(target, seed=0, n=400):
             iv.sort()
             return iv, [440.0 * 2 ** rng.choice([0, 0, 0, 1, -1]) * rng.choice([1.0, 1.0, 1.5]) for _ in range(k)]
         for _ in range(n):
-            ri, rp = nts(rng.randint(1, 4))
-            if rng.random() < 0.5:
+            ri, rp = nts(rng.randint(1, 4) if rng.random() < 0.9 else 0)
+            if rng.random() < 0.1:
+                ei, ep = [], []          # an empty estimate (valid: the scores are defined as 0)
+            elif rng.random() < 0.5 and ri:
                 ei = [[a + rng.choice([0.0, 0.125, -0.125, 0.25]), b + rng.choice([0.0, 0.125, 0.25, 0.5])] for a, b in ri]
                 ei = [[max(a, 0.0), max(b, max(a, 0.0) + 0.125)] for a, b in ei]
                 ep = list(rp)
@@ -256,6 +276,15 @@ def function_inputs(target, seed=0, n=400):
             elif mod == 'transcription_velocity':
                 return
             yield d
+    if target in ('multipitch.compute_accuracy', 'multipitch.compute_err_score'):
+        # per-frame counts, including frames (and whole sides) without any pitch
+        for _ in range(n):
+            k = rng.randint(0, 4)
+            side = rng.random()
+            nr = [0 if side < 0.2 else rng.randint(0, 3) for _ in range(k)]
+            ne = [0 if 0.2 <= side < 0.4 else rng.randint(0, 3) for _ in range(k)]
+            tp = [float(rng.randint(0, min(a, b))) for a, b in zip(nr, ne)]
+            yield dict(true_positives=tp, n_ref=nr, n_est=ne)
     if target == 'util.interpolate_intervals':
         grid = [0.25 * x for x in range(0, 13)]
         for _ in range(n):
